@@ -131,7 +131,7 @@ Walk(t, ps, i, cur, acc) ==
              cc   == Append(cur, part.v)
              pc   == Append(cur, PEdge)
          IN  IF HasNode(t, cc) /\ t[cc].host = part.h THEN Walk(t, ps, i + 1, cc, acc2)
-             ELSE IF HasNode(t, pc) /\ t[pc].host = part.h THEN Walk(t, ps, i + 1, pc, acc2)
+             ELSE IF HasNode(t, pc) /\ t[pc].host = part.h /\ part.v # "" THEN Walk(t, ps, i + 1, pc, acc2)   \* 2d3f081: a parameter needs a non-empty segment
              ELSE [cur |-> cur, k |-> i - 1, acc |-> acc2]
 
 Collected(t, ps) ==
